@@ -255,8 +255,9 @@ def barycentric(P, rep, rule="EXPR.barycentric"):
     loops = [xn for xn in C.walk() if xn.get("k") == "CXXForRangeStmt" and R(xn["c"][1]) == "values_at_points.first"]
     okm = False
     if len(loops) == 1:
-        body = R(loops[0]["c"][2])
-        okm = "(value<minimum)" in body and "(minimum=value)" in body and "(value>maximum)" in body and "(maximum=value)" in body
+        lv = loops[0]["c"][0].get("n", "value")
+        body = re.sub(r"\b%s\b" % re.escape(lv), "value", R(loops[0]["c"][2]))
+        okm = ("(value<minimum)" in body or "(minimum>value)" in body) and "(minimum=value)" in body and ("(value>maximum)" in body or "(maximum<value)" in body) and "(maximum=value)" in body
         inits = [xn for xn in C.walk() if xn.get("k") == "BinaryOperator" and xn.get("op") == "=" and R(xn["c"][0]) in ("minimum", "maximum", "this->minimum", "this->maximum")
                  and R(xn["c"][1]) == "values_at_points.first[0]"]
         okm = okm and len(inits) == 2
